@@ -194,7 +194,7 @@ func runReadOverlap(rng *prng.R) *runner {
 	r := start(rng, true, nil, true)
 	r.profile = "sess-read-overlap"
 	r.maxDepth = 128
-	for round := 0; round < 2 && !r.hang && len(r.fails) == 0; round++ {
+	for round := 0; round < 4 && !r.hang && len(r.fails) == 0; round++ {
 		// more reads in flight at once than any free list of buffers is likely to hold (so that a
 		// buffer handed back is the next one handed out), all of one size
 		count := uint32(8 + rng.Intn(120))
